@@ -73,11 +73,11 @@ reduce = cm.reduce_model_case
 
 
 def nontrivial(case):
-    return case[0] == 'B' or cm.has_group_or_ctc(case[1])
+    return case[0] in ('B', 'DC') or cm.has_group_or_ctc(case[1])
 
 
 def reduce(case):  # noqa: F811
-    if case[0] == 'B':
+    if case[0] in ('B', 'DC'):
         return
     yield from cm.reduce_model_case(case)
 
